@@ -198,16 +198,18 @@ theorem output_sources (file : List Line) (p0 : Patch) (o : ApplyOpts) (tty : Op
 /-! ### C03 for the rejected hunks of a whole run -/
 
 /-- the cursor (`line_number`, relative to the old file) when the turn of hunk `i` comes: the end of the old side of the
-    last hunk applied before it, 0 if there is none -/
-def cursorBefore (hunks : List Hunk) (applied : List (Nat × Location)) (i : Nat) : Nat :=
+    last hunk applied before it — or the end of the file, if that hunk reaches beyond it (D99: context at the end of a hunk which
+    fuzz ignores need not be in the file; `nextCursor`) —, 0 if there is none -/
+def cursorBefore (file : List Line) (hunks : List Hunk) (applied : List (Nat × Location)) (i : Nat) : Nat :=
   match (applied.filter (·.1 < i)).getLast? with
   | none => 0
-  | some (j, l) => l.line.toNat + (match hunks[j]? with
-    | some h => (oldOf h.lines).length
-    | none => 0)
+  | some (j, l) => (match hunks[j]? with
+    | some h => nextCursor file h l.line.toNat
+    | none => l.line.toNat)
 
-theorem cursorBefore_of_all_lt {hunks : List Hunk} {applied : List (Nat × Location)} {i i' : Nat}
-    (hall : ∀ a ∈ applied, a.1 < i) (hle : i ≤ i') : cursorBefore hunks applied i' = cursorBefore hunks applied i := by
+theorem cursorBefore_of_all_lt {file : List Line} {hunks : List Hunk} {applied : List (Nat × Location)} {i i' : Nat}
+    (hall : ∀ a ∈ applied, a.1 < i) (hle : i ≤ i') :
+    cursorBefore file hunks applied i' = cursorBefore file hunks applied i := by
   unfold cursorBefore
   have h1 : applied.filter (fun x => decide (x.1 < i)) = applied :=
     List.filter_eq_self.2 (fun a ha => by simpa using hall a ha)
@@ -215,16 +217,16 @@ theorem cursorBefore_of_all_lt {hunks : List Hunk} {applied : List (Nat × Locat
     List.filter_eq_self.2 (fun a ha => by have := hall a ha; simp; omega)
   rw [h1, h2]
 
-theorem cursorBefore_snoc_ge (hunks : List Hunk) (applied : List (Nat × Location)) {j i : Nat} (l : Location)
-    (hj : ¬ j < i) : cursorBefore hunks (applied ++ [(j, l)]) i = cursorBefore hunks applied i := by
+theorem cursorBefore_snoc_ge (file : List Line) (hunks : List Hunk) (applied : List (Nat × Location)) {j i : Nat} (l : Location)
+    (hj : ¬ j < i) : cursorBefore file hunks (applied ++ [(j, l)]) i = cursorBefore file hunks applied i := by
   unfold cursorBefore
   have : List.filter (fun x : Nat × Location => decide (x.1 < i)) [(j, l)] = [] := by
     simp [hj]
   rw [List.filter_append, this, List.append_nil]
 
-theorem cursorBefore_snoc_lt {hunks : List Hunk} (applied : List (Nat × Location)) {j i : Nat} (l : Location) {h : Hunk}
-    (hj : j < i) (hh : hunks[j]? = some h) :
-    cursorBefore hunks (applied ++ [(j, l)]) i = l.line.toNat + (oldOf h.lines).length := by
+theorem cursorBefore_snoc_lt {file : List Line} {hunks : List Hunk} (applied : List (Nat × Location)) {j i : Nat} (l : Location)
+    {h : Hunk} (hj : j < i) (hh : hunks[j]? = some h) :
+    cursorBefore file hunks (applied ++ [(j, l)]) i = nextCursor file h l.line.toNat := by
   unfold cursorBefore
   have : List.filter (fun x : Nat × Location => decide (x.1 < i)) [(j, l)] = [(j, l)] := by
     simp [hj]
@@ -234,10 +236,10 @@ theorem cursorBefore_snoc_lt {hunks : List Hunk} (applied : List (Nat × Locatio
 /-- loop invariant for C03 (when the run is not in the skip state), `s` being the state before hunk number `num` -/
 def NoPlaceInv (file : List Line) (o : ApplyOpts) (all : List Hunk) (num : Nat) (s : AState) : Prop :=
   s.skip = false →
-    (∀ a ∈ s.applied, a.1 < num) ∧ s.cursor = cursorBefore all s.applied num ∧ s.cursor ≤ file.length ∧
+    (∀ a ∈ s.applied, a.1 < num) ∧ s.cursor = cursorBefore file all s.applied num ∧ s.cursor ≤ file.length ∧
     ∀ ih ∈ s.rejected, ih.1 < num ∧ ∃ h, all[ih.1]? = some h ∧
-      cursorBefore all s.applied ih.1 ≤ file.length ∧
-      (h.old.count ≠ 0 → ∀ q f, cursorBefore all s.applied ih.1 ≤ q →
+      cursorBefore file all s.applied ih.1 ≤ file.length ∧
+      (h.old.count ≠ 0 → ∀ q f, cursorBefore file all s.applied ih.1 ≤ q →
         admissibleB file h o.ignoreWhitespace o.maxFuzz q f = false)
 
 theorem finishHunk_noPlaceInv {file : List Line} {o : ApplyOpts} {p : Patch} {s s' : AState} {num : Nat} {h : Hunk}
@@ -249,9 +251,9 @@ theorem finishHunk_noPlaceInv {file : List Line} {o : ApplyOpts} {p : Patch} {s 
   rcases ApplyLoop.finishHunk_ok' hs with ⟨l, emitted, cur, hsk, hl, _, hw, _, hcur, _, happ, hrj, _, _⟩ |
       ⟨hno, _, hcur, _, happ, hrj, hsk, _⟩
   · obtain ⟨ha, hc, hcl, hrej⟩ := hinv hsk
-    obtain ⟨q, hq, hge, hfit, _⟩ := C02.locatorSound file o.ignoreWhitespace o.maxFuzz h s.offErr s.cursor hwf l hl
+    obtain ⟨q, hq, hge, hfit, htail, _⟩ := C02.locatorSound file o.ignoreWhitespace o.maxFuzz h s.offErr s.cursor hwf l hl
     have hq' : l.line.toNat = q := by omega
-    rw [hD, Apply.writeHunkD_nil, hq', Splice.writeHunk_eq file h.lines q hwf.1 hfit] at hw
+    rw [hD, Apply.writeHunkD_nil, hq', Splice.writeHunk_eq_min file h.lines q hwf.1 hfit htail] at hw
     cases hw
     refine ⟨?_, ?_, ?_, ?_⟩
     · intro a hm
@@ -259,13 +261,13 @@ theorem finishHunk_noPlaceInv {file : List Line} {o : ApplyOpts} {p : Patch} {s 
       rcases List.mem_append.1 hm with hm | hm
       · have := ha a hm; omega
       · rw [List.mem_singleton.1 hm]; exact Nat.lt_succ_self _
-    · rw [hcur, happ, cursorBefore_snoc_lt s.applied l (Nat.lt_succ_self _) hnum, hq']
-    · rw [hcur]; exact hfit
+    · rw [hcur, happ, cursorBefore_snoc_lt s.applied l (Nat.lt_succ_self _) hnum, hq']; rfl
+    · rw [hcur]; exact Nat.min_le_right _ _
     · intro ih hm
       rw [hrj] at hm
       obtain ⟨hlt, h0, hh0, he⟩ := hrej ih hm
       refine ⟨by omega, h0, hh0, ?_⟩
-      rw [happ, cursorBefore_snoc_ge all s.applied l (by omega)]
+      rw [happ, cursorBefore_snoc_ge file all s.applied l (by omega)]
       exact he
   · have hsk0 : s.skip = false := by rw [← hsk]; exact hsk'
     obtain ⟨ha, hc, hcl, hrej⟩ := hinv hsk0
@@ -287,7 +289,7 @@ theorem finishHunk_noPlaceInv {file : List Line} {o : ApplyOpts} {p : Patch} {s 
         exact ⟨by omega, hrest⟩
       · rw [List.mem_singleton.1 hm]
         refine ⟨Nat.lt_succ_self _, h, hnum, ?_, ?_⟩
-        · show cursorBefore all s.applied num ≤ file.length
+        · show cursorBefore file all s.applied num ≤ file.length
           rw [← hc]; exact hcl
         · intro hcnt q f hq
           show admissibleB file h o.ignoreWhitespace o.maxFuzz q f = false
@@ -303,8 +305,8 @@ theorem finishHunk_noPlaceInv {file : List Line} {o : ApplyOpts} {p : Patch} {s 
 theorem rejected_had_no_placement_at (file : List Line) (p0 : Patch) (o : ApplyOpts) (tty : Option (List Bool)) (r : ApplyResult)
     (hwf : ∀ h ∈ p0.hunks, h.WF) (hD : o.define = []) (hr : applyPatch file p0 o tty = .ok r) (hs : r.skipped = false) :
     ∀ ih ∈ r.rejected, ∃ h, r.patch.hunks[ih.1]? = some h ∧
-      cursorBefore r.patch.hunks r.applied ih.1 ≤ file.length ∧
-      (h.old.count ≠ 0 → ∀ q f, cursorBefore r.patch.hunks r.applied ih.1 ≤ q →
+      cursorBefore file r.patch.hunks r.applied ih.1 ≤ file.length ∧
+      (h.old.count ≠ 0 → ∀ q f, cursorBefore file r.patch.hunks r.applied ih.1 ≤ q →
         admissibleB file h o.ignoreWhitespace o.maxFuzz q f = false) := by
   have hwf' : ∀ h ∈ r.patch.hunks, h.WF := by
     obtain ⟨_, _, _, hp⟩ := ApplyLoop.applyPatch_induct hr (fun _ _ => True) (fun _ _ _ => trivial)
@@ -340,14 +342,14 @@ theorem rejected_had_no_placement (file : List Line) (p0 : Patch) (o : ApplyOpts
   obtain ⟨h, hh, hc, hno⟩ := rejected_had_no_placement_at file p0 o tty r hwf hD hr hs ih hm
   exact ⟨h, _, hh, hc, hno⟩
 
-/-- remark: for a well-formed hunk with an old side no placement exists at or after the end of the file, so the statement above is
+/-- remark: for a well-formed hunk with an old side no placement exists at or after the end of the file (since D99 `admissibleB` says
+    so itself: a placement starts inside the file; the two hypotheses on the hunk are no longer needed), so the statement above is
     already satisfied by `c = file.length`; `rejected_had_no_placement_at` is the statement that names the cursor -/
 theorem no_placement_at_end {file : List Line} {h : Hunk} (iw : Bool) (maxFuzz : Int) {q : Nat} (f : Nat)
-    (hwf : h.WF) (hc : h.old.count ≠ 0) (hq : file.length ≤ q) : admissibleB file h iw maxFuzz q f = false := by
+    (_hwf : h.WF) (_hc : h.old.count ≠ 0) (hq : file.length ≤ q) : admissibleB file h iw maxFuzz q f = false := by
   cases hadm : admissibleB file h iw maxFuzz q f
   · rfl
-  · have h1 := C02.admissibleB_fit hadm
-    have h2 := hwf.2.1
+  · have h1 := (C02.admissibleB_fit hadm).2
     omega
 
 /-! ### non-vacuity: a run with an applied hunk that grows the file, a rejected hunk, and another applied hunk -/
@@ -388,9 +390,19 @@ example : ∃ r, applyPatch file patch {} none = .ok r ∧ ({} : ApplyOpts).defi
     hunk has an old side and *has* an admissible placement before the cursor (at 0, fuzz 0), none from the cursor on -/
 example : ∃ r, applyPatch file patch {} none = .ok r ∧ r.skipped = false ∧ ({} : ApplyOpts).define = [] ∧
     r.rejected.map (·.1) = [1] ∧ r.patch.hunks[1]? = some h1 ∧ h1.old.count ≠ 0 ∧
-    cursorBefore r.patch.hunks r.applied 1 = 2 ∧
+    cursorBefore file r.patch.hunks r.applied 1 = 2 ∧
     admissibleB file h1 false 2 0 0 = true ∧
     (∀ q < 7, ∀ f < 4, 2 ≤ q → admissibleB file h1 false 2 q f = false) :=
+  ⟨_, rfl, by decide⟩
+
+/-- D99 and the cursor: the hunk of `C03.D99` (placed at index 1 with fuzz 1, old side of 4 lines, file of 4 lines) is followed by a hunk
+    that removes a line `x` which the file does not have.  The second hunk is rejected; the cursor at its turn is the end of the file
+    (4), not "the end of the old side of the hunk before" (1 + 4 = 5: there is no such line) — which is why `cursorBefore` is
+    stated with `nextCursor` -/
+example : ∃ r, applyPatch C03.D99.file { hunks := [C03.D99.hunk, ⟨⟨1, 1⟩, ⟨1, 0⟩, [⟨MINUS, ln 120⟩]⟩] } {} none = .ok r ∧
+    r.skipped = false ∧ r.applied = [(0, ⟨1, 1, 0⟩)] ∧ r.rejected.map (·.1) = [1] ∧
+    cursorBefore C03.D99.file r.patch.hunks r.applied 1 = 4 ∧ C03.D99.file.length = 4 ∧
+    1 + (oldOf C03.D99.hunk.lines).length = 5 :=
   ⟨_, rfl, by decide⟩
 
 end Ex
